@@ -132,6 +132,7 @@ def schema_json(parsed, name, depth=0):
 
 
 def proto_text(asn_file):
+    vlib.cargo_build()        # the front end binary is built from /repo's current tree (memoised per run)
     exe = os.path.join(vlib.bin_dir(), "frontend")
     p = subprocess.run([exe, "proto", asn_file], stdout=subprocess.PIPE, stderr=subprocess.PIPE, text=True, timeout=300)
     rows = [json.loads(l) for l in p.stdout.splitlines() if l.strip()]
